@@ -227,4 +227,66 @@ func set.apply$2
   maintains *removedElements != addedset && sel(smem, addedset) == snapadded        -- the first phase's result is left alone
   ensures held((*s).applyMutex)
   ensures forall x Int :: x != *removedElements ==> sel(smem, x) == sel(old(smem), x)
+
+-- ---------------------------------------------------------------------------------------------------------------
+-- SetArithmetic: occurrence counts per element (a ShrinkingMap[element, int]; absent = 0). A collector moves the count
+-- of one element by one in its direction; only when the count thereby crosses the threshold (reaches it going up,
+-- falls below it going down) the net mutation changes: a pending opposite mutation of that element is cancelled,
+-- otherwise the element is collected. Counts of other elements and - without a crossing - both sets stay as they are.
+func setArithmetic.elementsCollector$1$1
+  instantiate ElementType: int
+  opt assume-no-overflow
+  requires increase != nil
+  ensures r0 == currentValue + (*increase ? 1 : 0 - 1)
+
+func setArithmetic.elementsCollector$1
+  instantiate ElementType: int
+  opt assume-no-overflow
+  opt sequential
+  requires s != nil && *s != nil && (*s).ShrinkingMap != nil && unlocked((*s).ShrinkingMap.mutex) && increase != nil && threshold != nil
+  requires targetSet != nil && *targetSet != nil && opposingSet != nil && *opposingSet != nil && *targetSet != *opposingSet
+  modifies map((*s).ShrinkingMap.m), ghost(smem)
+  ensures has((*s).ShrinkingMap.m, element) && (*s).ShrinkingMap.m[element] == (old(has((*s).ShrinkingMap.m, element)) ? old((*s).ShrinkingMap.m[element]) : 0) + (*increase ? 1 : 0 - 1)
+  ensures forall k Int :: k != element ==> (has((*s).ShrinkingMap.m, k) <==> old(has((*s).ShrinkingMap.m, k))) && (*s).ShrinkingMap.m[k] == old((*s).ShrinkingMap.m[k])
+  ensures (*s).ShrinkingMap.m[element] != (*increase ? *threshold : *threshold - 1) ==> smem == old(smem)
+  ensures (*s).ShrinkingMap.m[element] == (*increase ? *threshold : *threshold - 1) && old(sel(sel(smem, *opposingSet), element)) ==> smem == upd(old(smem), *opposingSet, upd(sel(old(smem), *opposingSet), element, false))
+  ensures (*s).ShrinkingMap.m[element] == (*increase ? *threshold : *threshold - 1) && !old(sel(sel(smem, *opposingSet), element)) ==> smem == upd(old(smem), *targetSet, upd(sel(old(smem), *targetSet), element, true))
+
+func setArithmetic.elementsCollector
+  instantiate ElementType: int
+  modifies nothing
+  ensures r0 != nil
+
+-- the two directions: additions collect into the added set and cancel against the deleted set, subtractions the other
+-- way round; the threshold defaults to 1
+func setArithmetic.AddedElementsCollector
+  instantiate ElementType: int
+  requires s != nil && mutations != nil
+  modifies nothing
+  ghost before call setArithmetic.elementsCollector: assert arg0 == s && arg1 == sel(madd, mutations) && arg2 == sel(mdel, mutations) && arg3 && arg4 == (len(threshold) > 0 ? threshold[0] : 1)
+func setArithmetic.SubtractedElementsCollector
+  instantiate ElementType: int
+  requires s != nil && mutations != nil
+  modifies nothing
+  ghost before call setArithmetic.elementsCollector: assert arg0 == s && arg1 == sel(mdel, mutations) && arg2 == sel(madd, mutations) && !arg3 && arg4 == (len(threshold) > 0 ? threshold[0] : 1)
+
+-- Add counts the added elements up and the deleted ones down; Subtract the other way round; both into a new mutations object
+func setArithmetic.Add
+  instantiate ElementType: int
+  requires s != nil && mutations != nil
+  modifies everything
+  ghost before call Set.Range #1: assert arg0 == sel(madd, mutations)
+  ghost before call Set.Range #2: assert arg0 == sel(mdel, mutations)
+  ghost before call setArithmetic.AddedElementsCollector: assert arg0 == s && arg1 == m
+  ghost before call setArithmetic.SubtractedElementsCollector: assert arg0 == s && arg1 == m
+  ensures r0 != nil
+func setArithmetic.Subtract
+  instantiate ElementType: int
+  requires s != nil && mutations != nil
+  modifies everything
+  ghost before call Set.Range #1: assert arg0 == sel(madd, mutations)
+  ghost before call Set.Range #2: assert arg0 == sel(mdel, mutations)
+  ghost before call setArithmetic.SubtractedElementsCollector: assert arg0 == s && arg1 == m
+  ghost before call setArithmetic.AddedElementsCollector: assert arg0 == s && arg1 == m
+  ensures r0 != nil
 @*/
